@@ -491,6 +491,9 @@ def run_programs(exe, programs, timeout=10, jobs=JOBS, args=(), cwd_links=None, 
                 return (r.stdout.decode("utf-8", "replace"), exit_class(r.returncode),
                         r.stderr.decode("utf-8", "replace")[-400:])
             except subprocess.TimeoutExpired as ex_:
+                if os.environ.get("CB_VERIF_LOG_TIMEOUTS"):
+                    with open(os.environ["CB_VERIF_LOG_TIMEOUTS"], "a") as lf:
+                        lf.write("=====TIMEOUT\n" + p)
                 return ((ex_.stdout or b"").decode("utf-8", "replace"), "timeout", "")
         finally:
             free.put(d)
